@@ -11,11 +11,12 @@ func init() {
 		// Because there is overlap between operators (like "*" and "**") we have to
 		// ensure that some ordering is forced.
 		if op != "**" && op != "is not" && op != "//" && op != "not in" && op != ">=" && op != "<=" {
-			ops = append(ops, regexp.QuoteMeta(op))
+			// The words of an operator like "starts with" may be separated by any whitespace.
+			ops = append(ops, strings.Replace(regexp.QuoteMeta(op), " ", `\s+`, -1))
 		}
 	}
 	// Additionally, we add the unary "not" operator since it has no binary counterpart.
-	operatorMatcher = regexp.MustCompile(`^(not in|not|\*\*|is not|//|>=|<=|` + strings.Join(ops, "|") + ")")
+	operatorMatcher = regexp.MustCompile(`^(not\s+in|not|\*\*|is\s+not|//|>=|<=|` + strings.Join(ops, "|") + ")")
 }
 
 var operatorMatcher *regexp.Regexp
